@@ -33,6 +33,12 @@ def mdftRoundTrip (e : R → K) (nrm : R → K) (shp samples : Nat × Nat) (αy 
   mdft2 (fun t => e (-t)) nrm wiringAxis0 wiringAxis1 samples shp βy βx βy βx shift
     (fun k l => mdft2 e nrm wiringAxis0 wiringAxis1 shp samples αy αx αy αx shift f k l) j i
 
+/-- the same round trip with the kernel sign, the `fwd` flags of `dft2` / `idft2` and the wiring as parameters -/
+def mdftRoundTripG (fwdSign : Int) (dftIsFwd idftIsFwd : Bool) (w0 w1 : AxisWiring) (e : R → K) (nrm : R → K)
+    (shp samples : Nat × Nat) (αy αx βy βx : R) (shift : R × R) (f : Nat → Nat → K) (j i : Nat) : K :=
+  mdft2G fwdSign idftIsFwd e nrm w0 w1 samples shp βy βx βy βx shift
+    (fun k l => mdft2G fwdSign dftIsFwd e nrm w0 w1 shp samples αy αx αy αx shift f k l) j i
+
 /-! ## angular spectrum -/
 
 /-- `fftfreq(n, d)[k] · (n d)`: `0, 1, …, (n−1)//2, −(n//2), …, −1` -/
@@ -59,6 +65,36 @@ def aspApply (e : R → K) (shape : Nat × Nat) (tf : Nat → Nat → K) (f : Ar
 /-- `angular_spectrum(field, wvl, dx, z, Q=1)` -/
 def asp (e : R → K) (shape : Nat × Nat) (wvl dx z : R) (f : Array (Array K)) : Array (Array K) :=
   aspApply e shape (aspTf2 e shape wvl dx z) f
+
+/-! ### the same with what the translator reads off the source as PARAMETERS -/
+
+/-- `exp(sg·iπ·coef(wvl,z)·k²)` for one axis; `coef` is the generated coefficient of `π k²` -/
+def aspTf1G (coef : R → R → R) (sg : Int) (e : R → K) (s : Nat) (wvl dx z : R) (k : Nat) : K :=
+  kernS sg e ((coef wvl z * (aspFreq s dx k * aspFreq s dx k)) / Num.ofInt 2)
+
+/-- `outer(tfy, tfx)`: `rowsIdx`/`colsIdx` say which component of `samples` gives the rows / columns -/
+def aspTf2G (coef : R → R → R) (sgRows sgCols : Int) (rowsIdx colsIdx : Nat) (e : R → K) (shape : Nat × Nat)
+    (wvl dx z : R) (p q : Nat) : K :=
+  aspTf1G coef sgRows e (sel rowsIdx shape) wvl dx z p * aspTf1G coef sgCols e (sel colsIdx shape) wvl dx z q
+
+/-- reference coefficient of `π k²`: `(λ/1000)·z` (wavelength µm → mm) -/
+def aspCoefRef (wvl z : R) : R := (wvl / Num.ofInt 1000) * z
+
+/-- `norm=` keywords of the `fft2` / `ifft2` calls of one branch of `angular_spectrum` -/
+structure AspOpFlags where
+  fwdOrtho : Bool
+  invOrtho : Bool
+deriving DecidableEq, Repr
+
+def aspOpFlagsRef : AspOpFlags := { fwdOrtho := false, invOrtho := false }
+
+/-- `ifft2(fft2(f, norm?) · tf, norm?)`: an `ortho` forward transform divides by `√(K L)`, an `ortho` inverse multiplies by it -/
+def aspApplyG (fl : AspOpFlags) (e : R → K) (nrm : R → K) (shape : Nat × Nat) (tf : Nat → Nat → K) (f : Array (Array K)) :
+    Array (Array K) :=
+  let c : K := nrm (Num.ofInt 1 / Num.ofInt (shape.1 : Int)) * nrm (Num.ofInt 1 / Num.ofInt (shape.2 : Int))
+  let y := aspApply e shape tf f
+  let y := if fl.fwdOrtho then tab2 shape.1 shape.2 (fun j i => c * rd2 y j i) else y
+  if fl.invOrtho then tab2 shape.1 shape.2 (fun j i => rd2 y j i / c) else y
 
 /-- `angular_spectrum(field, wvl, dx, z, Q)` with `Q ≠ 1`: the field is zero-padded to `out` first (and not cropped back) -/
 def aspPadded (e : R → K) (shp out : Nat × Nat) (off : Int × Int) (wvl dx z : R) (f : Array (Array K)) : Array (Array K) :=
